@@ -3,6 +3,7 @@
 //! fault plan. Serves C06 (fault exactness), C19 (no crash on arbitrary code), and the
 //! instruction part of C09 (permissions on every form that touches memory).
 
+use std::cell::RefCell;
 use std::sync::OnceLock;
 
 use ax_x86::axecutor::Axecutor;
@@ -59,6 +60,10 @@ pub struct Sc {
     /// an inaccessible (PROT_NONE) area directly behind the data area
     #[serde(default)]
     pub neighbour: bool,
+    /// before the instruction under test the machine executed one RET (placed behind the padding) that
+    /// returned to it: returns then outnumber calls and the shadow call stack is empty
+    #[serde(default)]
+    pub prelude_ret: bool,
 }
 
 pub struct E5Engine;
@@ -640,13 +645,14 @@ fn gen_insn(mode: &str, ci: usize, shape: Option<usize>, fault: &str, r: &mut Rn
         no_pad: false,
         // an operand running past the end of its area: into nothing, into the stale tail of a shrunk
         // area, or into an inaccessible neighbour (an enumerated axis of the straddle cells)
-        shrunk: fault == "straddle_area_end" && k % 3 == 1,
+        shrunk: (fault == "straddle_area_end" && k % 3 == 1) || (fault.starts_with("perm_revoke") && k % 2 == 1),
         neighbour: fault == "straddle_area_end" && k % 3 == 2,
+        prelude_ret: k % 4 == 3,
     })
 }
 
 fn trivial(mode: &str) -> Sc {
-    Sc { mode: mode.into(), code_name: "Nopd".into(), shape: "reg".into(), fault: "none".into(), bytes: "90".into(), gpr: vec![0, 0, 0, 0, 0, 0, STACK + 0x800, 0, 0, 0, 0, 0, 0, 0, 0, 0], xmm_seed: 1, flags: 0, fs: 0, gs: 0, data_seed: 1, prot_data: 3, prot_stack: 3, prot_code: 5, extra_steps: 0, flips: vec![], flip_at: 0, poke: vec![], no_pad: false, shrunk: false, neighbour: false }
+    Sc { mode: mode.into(), code_name: "Nopd".into(), shape: "reg".into(), fault: "none".into(), bytes: "90".into(), gpr: vec![0, 0, 0, 0, 0, 0, STACK + 0x800, 0, 0, 0, 0, 0, 0, 0, 0, 0], xmm_seed: 1, flags: 0, fs: 0, gs: 0, data_seed: 1, prot_data: 3, prot_stack: 3, prot_code: 5, extra_steps: 0, flips: vec![], flip_at: 0, poke: vec![], no_pad: false, shrunk: false, neighbour: false, prelude_ret: false }
 }
 
 fn gen_c06(seed: u64, idx: u64, thorough: bool) -> Sc {
@@ -723,7 +729,7 @@ fn gen_c19(seed: u64, idx: u64, thorough: bool) -> Sc {
     // pointer registers aimed into the mapped areas so that memory operands usually resolve
     for g in gpr.iter_mut().enumerate() {
         if g.0 != 6 && r.chance(1, 2) {
-            *g.1 = *r.pick(&[DATA, DATA + 0x800, DATA + DATA_LEN - 8, STACK + 0x100, CODE, 0, UNMAPPED]) + r.below(64);
+            *g.1 = *r.pick(&[DATA, DATA + 0x800, DATA + DATA_LEN - 8, DATA + DATA_LEN, STACK + 0x100, CODE, 0, UNMAPPED]) + r.below(64);
         }
     }
     if r.chance(1, 8) {
@@ -773,6 +779,7 @@ fn gen_c19(seed: u64, idx: u64, thorough: bool) -> Sc {
                     s.mode = "c19".into();
                     // keep the solved registers but randomise a few others
                     let mut s = Sc { prot_data: r.below(8) as u32, prot_stack: *r.pick(&[3u32, 3, 1, 0]), ..s };
+                    s.shrunk = s.shrunk || r.chance(1, 4);
                     if r.chance(1, 3) {
                         s.no_pad = true;
                         let mut b = from_hex(&s.bytes);
@@ -820,6 +827,10 @@ fn gen_c19(seed: u64, idx: u64, thorough: bool) -> Sc {
     sc.prot_data = if r.chance(2, 3) { 3 } else { r.below(8) as u32 };
     sc.prot_stack = if r.chance(3, 4) { 3 } else { r.below(8) as u32 };
     sc.prot_code = if r.chance(7, 8) { 5 } else { *r.pick(&[7u32, 4, 1, 0]) };
+    // the data area was larger, was used, and was shrunk to its size just before the step: pointers just
+    // behind its end then address memory that existed a moment ago
+    sc.shrunk = sc.mode == "c19" && r.chance(1, 4);
+    sc.prelude_ret = sc.mode == "c19" && r.chance(1, 6);
     sc
 }
 
@@ -844,6 +855,12 @@ fn setup_masked(sc: &Sc, ctx: &mut Ctx, hooks: bool, only: Option<([bool; 16], [
     if !sc.no_pad || code.is_empty() {
         code.extend_from_slice(&[0x90; 24]);
     }
+    let prelude_at = if sc.prelude_ret && !sc.no_pad {
+        code.push(0xc3);
+        Some(CODE + code.len() as u64 - 1)
+    } else {
+        None
+    };
     let entry = if sc.mode == "c19_midrun" { CODE } else { CODE };
     let mut ax = match catch(|| Axecutor::new(&code, CODE, entry)) {
         Ok(Ok(a)) => a,
@@ -855,16 +872,27 @@ fn setup_masked(sc: &Sc, ctx: &mut Ctx, hooks: bool, only: Option<([bool; 16], [
     let _ = real_len;
     let r: Result<Result<(), String>, Panicked> = catch(|| {
         if sc.shrunk {
+            // shrunk below, as the last thing that touches memory before the step
             ax.mem_init_area(DATA, Rng::new(sc.data_seed).bytes(DATA_LEN as usize + 0x200)).map_err(|e| e.to_string())?;
-            ax.mem_resize_section(DATA, DATA_LEN).map_err(|e| e.to_string())?;
         } else {
             ax.mem_init_area(DATA, Rng::new(sc.data_seed).bytes(DATA_LEN as usize)).map_err(|e| e.to_string())?;
         }
-        if sc.neighbour {
-            ax.mem_init_area(DATA + DATA_LEN, Rng::new(sc.data_seed ^ 9).bytes(0x100)).map_err(|e| e.to_string())?;
-            ax.mem_prot(DATA + DATA_LEN, 0).map_err(|e| e.to_string())?;
-        }
         ax.mem_init_area(STACK, Rng::new(sc.data_seed ^ 5).bytes(STACK_LEN as usize)).map_err(|e| e.to_string())?;
+        if let Some(at) = prelude_at {
+            // RET (ax pops by RSP += 8, then reads) returning to the instruction under test with RSP as specified
+            let g = sc.gpr.get(6).copied().unwrap_or(0);
+            if g >= STACK + 8 && g <= STACK + STACK_LEN - 8 {
+                let _ = ax.mem_write_64(g, CODE);
+                let _ = ax.mem_write_64(g.wrapping_sub(8), CODE);
+                let _ = ax.reg_write_64(SR::RSP, g.wrapping_sub(8));
+                let _ = ax.reg_write_64(SR::RIP, at);
+                let ok = matches!(do_step(&mut ax), StepOut::Ok(_)) && ax.reg_read_64(SR::RIP).ok() == Some(CODE);
+                ctx.probe(if ok { "prelude_ret_executed" } else { "prelude_ret_failed" });
+            } else {
+                ctx.probe("prelude_ret_skipped_no_stack");
+            }
+            let _ = ax.reg_write_64(SR::RIP, CODE);
+        }
         for (a, v, n) in sc.poke.iter() {
             let _ = ax.mem_write_bytes(*a, &v.to_le_bytes()[..(*n as usize).min(8)]);
         }
@@ -890,7 +918,21 @@ fn setup_masked(sc: &Sc, ctx: &mut Ctx, hooks: bool, only: Option<([bool; 16], [
                 }
             }
         }
-        ax.mem_prot(DATA, sc.prot_data & 7).map_err(|e| e.to_string())?;
+        if sc.shrunk {
+            // the host used the tail that is about to go away (whatever the machine remembers about
+            // its last access is now stale), then gave it back
+            let _ = ax.mem_read_bytes(DATA + DATA_LEN + 0x10, 8);
+            let _ = ax.mem_write_bytes(DATA + DATA_LEN + 0x18, &[0xa5; 8]);
+            // rights first, then the resize (as brk does to a heap the host protected): they must survive it
+            ax.mem_prot(DATA, sc.prot_data & 7).map_err(|e| e.to_string())?;
+            ax.mem_resize_section(DATA, DATA_LEN).map_err(|e| e.to_string())?;
+        } else {
+            ax.mem_prot(DATA, sc.prot_data & 7).map_err(|e| e.to_string())?;
+        }
+        if sc.neighbour {
+            ax.mem_init_area(DATA + DATA_LEN, Rng::new(sc.data_seed ^ 9).bytes(0x100)).map_err(|e| e.to_string())?;
+            ax.mem_prot(DATA + DATA_LEN, 0).map_err(|e| e.to_string())?;
+        }
         ax.mem_prot(STACK, sc.prot_stack & 7).map_err(|e| e.to_string())?;
         ax.mem_prot(CODE, sc.prot_code & 7).map_err(|e| e.to_string())?;
         Ok(())
@@ -902,18 +944,42 @@ fn setup_masked(sc: &Sc, ctx: &mut Ctx, hooks: bool, only: Option<([bool; 16], [
     Some(Machine { ax })
 }
 
-fn area_of(ax: &Axecutor, addr: u64, size: u64) -> Option<(u64, u32)> {
-    let end = addr as u128 + size as u128;
-    for (start, len, access, _) in ax.verif_area_extents() {
-        if len > 0 && start <= addr && end <= start as u128 + len as u128 {
-            return Some((start, access));
+/// The layout the host established through the API - extents and rights as *requested*, not as the
+/// machine reports them: an operation that silently changed an area's rights or extent must not
+/// change what the oracle expects of the step.
+fn intended_layout(sc: &Sc) -> Vec<(u64, u64, u32)> {
+    let mut code_len = from_hex(&sc.bytes).len() as u64;
+    if !sc.no_pad || code_len == 0 {
+        code_len += 24;
+        if sc.prelude_ret && !sc.no_pad {
+            code_len += 1;
         }
     }
-    None
+    let mut v = vec![(DATA, DATA_LEN, sc.prot_data & 7), (STACK, STACK_LEN, sc.prot_stack & 7), (CODE, code_len, sc.prot_code & 7)];
+    if sc.neighbour {
+        v.push((DATA + DATA_LEN, 0x100, 0));
+    }
+    v
 }
 
-fn touches_any(ax: &Axecutor, addr: u64, size: u64) -> bool {
-    ax.verif_area_extents().iter().any(|a| crate::e1::intersects(addr, size, a.0, a.1))
+thread_local! {
+    static LAYOUT: RefCell<Vec<(u64, u64, u32)>> = RefCell::new(Vec::new());
+}
+
+fn area_of(_ax: &Axecutor, addr: u64, size: u64) -> Option<(u64, u32)> {
+    let end = addr as u128 + size as u128;
+    LAYOUT.with(|l| {
+        for (start, len, access) in l.borrow().iter() {
+            if *len > 0 && *start <= addr && end <= *start as u128 + *len as u128 {
+                return Some((*start, *access));
+            }
+        }
+        None
+    })
+}
+
+fn touches_any(_ax: &Axecutor, addr: u64, size: u64) -> bool {
+    LAYOUT.with(|l| l.borrow().iter().any(|a| crate::e1::intersects(addr, size, a.0, a.1)))
 }
 
 fn reg_value(ax: &Axecutor, r: Register, fs: u64, gs: u64) -> Option<u64> {
@@ -944,6 +1010,17 @@ fn reg_value(ax: &Axecutor, r: Register, fs: u64, gs: u64) -> Option<u64> {
 /// What a real CPU would do with this instruction in this state, as far as faults go.
 /// Some(true) = faults, Some(false) = completes, None = no verdict (ambiguous / outside the model).
 fn cpu_faults(ax: &Axecutor, ins: &Instruction, sc: &Sc, ctx: &mut Ctx) -> (Option<bool>, String) {
+    LAYOUT.with(|l| *l.borrow_mut() = intended_layout(sc));
+    {
+        // reach: how often the machine's own view of the layout differs from what the host asked for
+        let mut actual: Vec<(u64, u64, u32)> = ax.verif_area_extents().iter().map(|a| (a.0, a.1, a.2)).collect();
+        let mut want = intended_layout(sc);
+        actual.sort();
+        want.sort();
+        if actual != want {
+            ctx.probe("machine_layout_differs_from_requested");
+        }
+    }
     let mut fac = InstructionInfoFactory::new();
     let info = fac.info(ins);
     let mut verdict: Option<bool> = Some(false);
